@@ -39,7 +39,7 @@ static void srgb_lowp(Rng& r, int n)
 {
 	typedef glm::vec<3, float, glm::lowp> V; std::string fn = "convertLinearToSRGB<lowp_vec3>"; const double knee = 0.0031308;
 	auto f = [](float x, int lane) { V c(0.25f, 0.5f, 0.75f); c[lane] = x; return glm::convertLinearToSRGB(c)[lane]; };
-	if (f(0.f, 0) != 0.f || std::fabs((double)f(1.f, 2) - 1) > 2e-6) tfail(fn, "end points", "0, 1", "0, 1", str((double)f(0.f, 0)) + ", " + str((double)f(1.f, 2)));
+	if (f(0.f, 0) != 0.f || nabs((double)f(1.f, 2) - 1) > 2e-6) tfail(fn, "end points", "0, 1", "0, 1", str((double)f(0.f, 0)) + ", " + str((double)f(1.f, 2)));
 	for (int i = 0; i <= n; ++i) {
 		double xd = (i % 3 == 0) ? (double)i / n : r.real(0, 1); if (i % 7 == 1) xd = knee * std::pow(10.0, r.real(0, 2.5)); if (i % 7 == 2) xd = knee * std::pow(10.0, -r.real(0, 5)); if (i % 17 == 3) xd = knee + r.real(0, 1e-5);
 		if (xd > 1) xd = 1; float x = (float)xd; int lane = i % 3; float e = f(x, lane); std::string in = str((double)x); double ref = ref_l2s((double)x, 1 / 2.4);
@@ -60,13 +60,13 @@ template<class T> static void srgb(Rng& r, int n, const char* tn)
 		double xd = (i % 3 == 0) ? (double)i / n : r.real(0, 1); if (i % 17 == 1) xd = 0.0031308 + r.real(-1e-5, 1e-5); if (i % 17 == 2) xd = 0.04045 + r.real(-1e-4, 1e-4); T x = (T)xd; T a = (T)r.real(0, 1);
 		glm::vec<4, T> c(x, (T)r.real(0, 1), (T)r.real(0, 1), a); glm::vec<4, T> e = glm::convertLinearToSRGB(c), d = glm::convertSRGBToLinear(c);
 		std::string in = str((double)x);
-		if (std::fabs((double)e.x - ref_l2s((double)x, 0.41666)) > tol) tfail("convertLinearToSRGB" + sfx, "value", in, str(ref_l2s((double)x, 0.41666)), str((double)e.x));
-		if (std::fabs((double)d.x - ref_s2l((double)x, 2.4)) > tol) tfail("convertSRGBToLinear" + sfx, "value", in, str(ref_s2l((double)x, 2.4)), str((double)d.x));
+		if (nabs((double)e.x - ref_l2s((double)x, 0.41666)) > tol) tfail("convertLinearToSRGB" + sfx, "value", in, str(ref_l2s((double)x, 0.41666)), str((double)e.x));
+		if (nabs((double)d.x - ref_s2l((double)x, 2.4)) > tol) tfail("convertSRGBToLinear" + sfx, "value", in, str(ref_s2l((double)x, 2.4)), str((double)d.x));
 		if (e.w != a || d.w != a) tfail("convertLinearToSRGB" + sfx, "alpha changed", in, str((double)a), str((double)e.w));
 		if (!(e.x >= 0 && e.x <= 1 && e.y >= 0 && e.y <= 1)) tfail("convertLinearToSRGB" + sfx, "outside [0,1]", in, "[0,1]", str((double)e.x));
 		if (!(d.x >= 0 && d.x <= 1)) tfail("convertSRGBToLinear" + sfx, "outside [0,1]", in, "[0,1]", str((double)d.x));
-		T back = glm::convertSRGBToLinear(glm::vec<3, T>(e)).x; if (std::fabs((double)back - (double)x) > 2e-5) tfail("convertSRGBToLinear" + sfx, "does not invert convertLinearToSRGB", in, in, str((double)back));
-		T fwd = glm::convertLinearToSRGB(glm::vec<3, T>(d)).x; if (std::fabs((double)fwd - (double)x) > 1.5e-4) tfail("convertLinearToSRGB" + sfx, "does not invert convertSRGBToLinear", in, in, str((double)fwd));
+		T back = glm::convertSRGBToLinear(glm::vec<3, T>(e)).x; if (nabs((double)back - (double)x) > 2e-5) tfail("convertSRGBToLinear" + sfx, "does not invert convertLinearToSRGB", in, in, str((double)back));
+		T fwd = glm::convertLinearToSRGB(glm::vec<3, T>(d)).x; if (nabs((double)fwd - (double)x) > 1.5e-4) tfail("convertLinearToSRGB" + sfx, "does not invert convertSRGBToLinear", in, in, str((double)fwd));
 		// monotone: a larger input never gives a smaller output
 		T x2 = (i % 2) ? std::nextafter(x, (T)2) : (T)std::min(1.0, (double)x + r.real(0, 0.01)); glm::vec<3, T> c2(x2, x2, x2);
 		if (glm::convertLinearToSRGB(c2).x < e.x) tfail("convertLinearToSRGB" + sfx, "not monotone", in + " < " + str((double)x2), ">= " + str((double)e.x), str((double)glm::convertLinearToSRGB(c2).x));
@@ -75,13 +75,13 @@ template<class T> static void srgb(Rng& r, int n, const char* tn)
 		if (glm::convertLinearToSRGB(glm::vec<1, T>(x)).x != e.x || glm::convertLinearToSRGB(glm::vec<3, T>(c)).y != e.y || glm::convertSRGBToLinear(glm::vec<1, T>(x)).x != d.x || glm::convertSRGBToLinear(glm::vec<2, T>(c)).y != d.y) tfail("convertLinearToSRGB" + sfx, "overloads disagree per component", in, "", "");
 		// explicit gamma
 		T g = (T)r.real(1, 3); if (i % 4 == 0) g = (T)2.4; glm::vec<3, T> cg(x, x, x); T eg = glm::convertLinearToSRGB(cg, g).x, dg = glm::convertSRGBToLinear(cg, g).x; bool dflt = std::fabs((double)g - 2.4) < 1e-6; const char* gc = dflt ? "explicit gamma 2.4" : "explicit gamma other than 2.4 (the constants belong to 2.4: jump at the threshold)";
-		if (std::fabs((double)eg - ref_l2s((double)x, 1.0 / (double)g)) > tol * 4) tfail("convertLinearToSRGB(gamma)" + sfx, "value", in + " gamma " + str((double)g), str(ref_l2s((double)x, 1.0 / (double)g)), str((double)eg));
-		if (std::fabs((double)dg - ref_s2l((double)x, (double)g)) > tol * 4) tfail("convertSRGBToLinear(gamma)" + sfx, "value", in + " gamma " + str((double)g), str(ref_s2l((double)x, (double)g)), str((double)dg));
+		if (nabs((double)eg - ref_l2s((double)x, 1.0 / (double)g)) > tol * 4) tfail("convertLinearToSRGB(gamma)" + sfx, "value", in + " gamma " + str((double)g), str(ref_l2s((double)x, 1.0 / (double)g)), str((double)eg));
+		if (nabs((double)dg - ref_s2l((double)x, (double)g)) > tol * 4) tfail("convertSRGBToLinear(gamma)" + sfx, "value", in + " gamma " + str((double)g), str(ref_s2l((double)x, (double)g)), str((double)dg));
 		if (!(eg >= 0 && eg <= 1)) tfail("convertLinearToSRGB(gamma)" + sfx, gc, in + " gamma " + str((double)g), "[0,1]", str((double)eg));
 		T eg2 = glm::convertLinearToSRGB(c2, g).x; if (eg2 < eg) tfail("convertLinearToSRGB(gamma)" + sfx, gc, in + " < " + str((double)x2) + " gamma " + str((double)g), ">= " + str((double)eg), str((double)eg2));
-		T bg = glm::convertSRGBToLinear(glm::vec<3, T>(eg), g).x; if (eg > 0.04045 && std::fabs((double)bg - (double)x) > 1e-5) tfail("convertSRGBToLinear(gamma)" + sfx, "does not invert convertLinearToSRGB(gamma)", in + " gamma " + str((double)g), in, str((double)bg));
+		T bg = glm::convertSRGBToLinear(glm::vec<3, T>(eg), g).x; if (eg > 0.04045 && nabs((double)bg - (double)x) > 1e-5) tfail("convertSRGBToLinear(gamma)" + sfx, "does not invert convertLinearToSRGB(gamma)", in + " gamma " + str((double)g), in, str((double)bg));
 	}
-	for (T e0 : {(T)0, (T)1}) { glm::vec<3, T> c(e0); if (glm::convertLinearToSRGB(c).x != e0) tfail("convertLinearToSRGB" + sfx, e0 == (T)1 ? "end point 1 (one ulp low: 1.055 - 0.055 rounds below 1)" : "end point", str((double)e0), str((double)e0), str((double)glm::convertLinearToSRGB(c).x)); if (std::fabs((double)glm::convertSRGBToLinear(c).x - (double)e0) > (sizeof(T) == 4 ? 1.3e-7 : 1e-9)) tfail("convertSRGBToLinear" + sfx, "end point", str((double)e0), str((double)e0), str((double)glm::convertSRGBToLinear(c).x)); }
+	for (T e0 : {(T)0, (T)1}) { glm::vec<3, T> c(e0); if (glm::convertLinearToSRGB(c).x != e0) tfail("convertLinearToSRGB" + sfx, e0 == (T)1 ? "end point 1 (one ulp low: 1.055 - 0.055 rounds below 1)" : "end point", str((double)e0), str((double)e0), str((double)glm::convertLinearToSRGB(c).x)); if (nabs((double)glm::convertSRGBToLinear(c).x - (double)e0) > (sizeof(T) == 4 ? 1.3e-7 : 1e-9)) tfail("convertSRGBToLinear" + sfx, "end point", str((double)e0), str((double)e0), str((double)glm::convertSRGBToLinear(c).x)); }
 	count("sRGB" + sfx, n);
 }
 // ---- HSV, YCoCg (float), saturation, luminosity
@@ -92,30 +92,30 @@ template<class T> static void others(Rng& r, int n, const char* tn)
 		glm::vec<3, T> c((T)r.real(0, 1), (T)r.real(0, 1), (T)r.real(0, 1)); if (i % 7 == 0) c = glm::vec<3, T>((T)(r.range(0, 8) / 8.0), (T)(r.range(0, 8) / 8.0), (T)(r.range(0, 8) / 8.0)); if (i % 11 == 0) c.y = c.x; if (i % 13 == 0) c.z = c.y;
 		glm::vec<3, T> h = glm::hsvColor(c), back = glm::rgbColor(h); double mx = std::max((double)c.x, std::max((double)c.y, (double)c.z)), mn = std::min((double)c.x, std::min((double)c.y, (double)c.z));
 		if (!(h.z >= 0 && h.z <= 1 && h.y >= 0 && h.y <= 1 && (mx == mn || (h.x >= 0 && h.x < (T)360.0001)))) tfail("hsvColor" + sfx, "range", v3(c), "h in [0,360), s,v in [0,1]", v3(h));
-		if (std::fabs((double)h.z - mx) > 1e-7) tfail("hsvColor" + sfx, "value is not the maximum", v3(c), str(mx), str((double)h.z));
-		if (mx - mn > 1e-3 && (std::fabs((double)back.x - (double)c.x) > tol * 5 || std::fabs((double)back.y - (double)c.y) > tol * 5 || std::fabs((double)back.z - (double)c.z) > tol * 5)) tfail("rgbColor" + sfx, "does not invert hsvColor", v3(c), v3(c), v3(back));
+		if (nabs((double)h.z - mx) > 1e-7) tfail("hsvColor" + sfx, "value is not the maximum", v3(c), str(mx), str((double)h.z));
+		if (mx - mn > 1e-3 && (nabs((double)back.x - (double)c.x) > tol * 5 || nabs((double)back.y - (double)c.y) > tol * 5 || nabs((double)back.z - (double)c.z) > tol * 5)) tfail("rgbColor" + sfx, "does not invert hsvColor", v3(c), v3(c), v3(back));
 		// hues next to the sector boundaries 60 k (the largest value below, the boundary, the smallest above; 360 itself wraps to 0) against the
 		// textbook HSV -> RGB formula in long double; near-pure primaries with one tiny component round trip through hue ~ 0 / 360
 		if (i % 5 == 0) { int k = r.range(0, 6); T hb = (T)(60.0 * k), hs[3] = { std::nextafter(hb, (T)-1), hb, std::nextafter(hb, (T)1000) }; T sat = (T)r.real(0.2, 1), val = (T)r.real(0.2, 1);
 			for (T hq : hs) { if (hq < 0 || hq > 360) continue; long double hp = (long double)hq / 60.0L; long double fl = floorl(hp); int sec = ((int)fl) % 6; long double f = hp - fl, v = val, sl = sat, pp = v * (1 - sl), qq = v * (1 - sl * f), tt = v * (1 - sl * (1 - f)), e[3];
 				switch (sec) { case 0: e[0] = v; e[1] = tt; e[2] = pp; break; case 1: e[0] = qq; e[1] = v; e[2] = pp; break; case 2: e[0] = pp; e[1] = v; e[2] = tt; break; case 3: e[0] = pp; e[1] = qq; e[2] = v; break; case 4: e[0] = tt; e[1] = pp; e[2] = v; break; default: e[0] = v; e[1] = pp; e[2] = qq; }
-				glm::vec<3, T> got = glm::rgbColor(glm::vec<3, T>(hq, sat, val)); if (std::fabs((double)(got.x - e[0])) > 2e-4 || std::fabs((double)(got.y - e[1])) > 2e-4 || std::fabs((double)(got.z - e[2])) > 2e-4) tfail("rgbColor" + sfx, "hue next to a sector boundary", v3(glm::vec<3, T>(hq, sat, val)), str((double)e[0]) + "," + str((double)e[1]) + "," + str((double)e[2]), v3(got)); }
-			T tiny = (T)std::ldexp(1.0, -r.range(8, sizeof(T) == 4 ? 22 : 50)); glm::vec<3, T> nr((T)1, (T)0, tiny), nb = glm::rgbColor(glm::hsvColor(nr)); if (std::fabs((double)nb.x - 1) > tol * 5 || std::fabs((double)nb.y) > tol * 5 || std::fabs((double)nb.z - (double)tiny) > 2e-4) tfail("rgbColor" + sfx, "does not invert hsvColor near a pure primary", v3(nr), v3(nr), v3(nb)); }
+				glm::vec<3, T> got = glm::rgbColor(glm::vec<3, T>(hq, sat, val)); if (nabs((double)(got.x - e[0])) > 2e-4 || nabs((double)(got.y - e[1])) > 2e-4 || nabs((double)(got.z - e[2])) > 2e-4) tfail("rgbColor" + sfx, "hue next to a sector boundary", v3(glm::vec<3, T>(hq, sat, val)), str((double)e[0]) + "," + str((double)e[1]) + "," + str((double)e[2]), v3(got)); }
+			T tiny = (T)std::ldexp(1.0, -r.range(8, sizeof(T) == 4 ? 22 : 50)); glm::vec<3, T> nr((T)1, (T)0, tiny), nb = glm::rgbColor(glm::hsvColor(nr)); if (nabs((double)nb.x - 1) > tol * 5 || nabs((double)nb.y) > tol * 5 || nabs((double)nb.z - (double)tiny) > 2e-4) tfail("rgbColor" + sfx, "does not invert hsvColor near a pure primary", v3(nr), v3(nr), v3(nb)); }
 		// hsv -> rgb -> hsv: hue over the full circle, sector boundaries included
 		double hue = (i % 3 == 0) ? 60.0 * r.range(0, 5) + r.real(0, 1e-3) * (i % 2) : r.real(0, 359.99); glm::vec<3, T> hsv((T)hue, (T)r.real(0.05, 1), (T)r.real(0.05, 1)); glm::vec<3, T> rgb = glm::rgbColor(hsv), h2 = glm::hsvColor(rgb);
 		if (!(rgb.x >= -1e-6 && rgb.x <= 1 + 1e-6 && rgb.y >= -1e-6 && rgb.y <= 1 + 1e-6 && rgb.z >= -1e-6 && rgb.z <= 1 + 1e-6)) tfail("rgbColor" + sfx, "outside the RGB cube", v3(hsv), "[0,1]^3", v3(rgb));
-		double dh = std::fabs((double)h2.x - (double)hsv.x); dh = std::min(dh, 360.0 - dh); if (dh > (sizeof(T) == 4 ? 2e-2 : 1e-6) / (double)(hsv.y * hsv.z) || std::fabs((double)h2.y - (double)hsv.y) > tol * 20 || std::fabs((double)h2.z - (double)hsv.z) > tol) tfail("hsvColor" + sfx, "does not invert rgbColor", v3(hsv), v3(hsv), v3(h2));
+		double dh = std::fabs((double)h2.x - (double)hsv.x); dh = std::min(dh, 360.0 - dh); if (dh > (sizeof(T) == 4 ? 2e-2 : 1e-6) / (double)(hsv.y * hsv.z) || nabs((double)h2.y - (double)hsv.y) > tol * 20 || nabs((double)h2.z - (double)hsv.z) > tol) tfail("hsvColor" + sfx, "does not invert rgbColor", v3(hsv), v3(hsv), v3(h2));
 		// YCoCg (floating)
-		glm::vec<3, T> y = glm::rgb2YCoCg(c), yb = glm::YCoCg2rgb(y); if (std::fabs((double)y.x - ((double)c.x / 4 + (double)c.y / 2 + (double)c.z / 4)) > tol || std::fabs((double)y.y - ((double)c.x / 2 - (double)c.z / 2)) > tol || std::fabs((double)y.z - (-(double)c.x / 4 + (double)c.y / 2 - (double)c.z / 4)) > tol) tfail("rgb2YCoCg" + sfx, "matrix", v3(c), "", v3(y));
-		if (std::fabs((double)yb.x - (double)c.x) > tol || std::fabs((double)yb.y - (double)c.y) > tol || std::fabs((double)yb.z - (double)c.z) > tol) tfail("YCoCg2rgb" + sfx, "does not invert rgb2YCoCg", v3(c), v3(c), v3(yb));
-		glm::vec<3, T> yr = glm::YCoCgR2rgb(glm::rgb2YCoCgR(c)); if (std::fabs((double)yr.x - (double)c.x) > tol || std::fabs((double)yr.y - (double)c.y) > tol || std::fabs((double)yr.z - (double)c.z) > tol) tfail("YCoCgR2rgb" + sfx, "does not invert rgb2YCoCgR (floating)", v3(c), v3(c), v3(yr));
+		glm::vec<3, T> y = glm::rgb2YCoCg(c), yb = glm::YCoCg2rgb(y); if (nabs((double)y.x - ((double)c.x / 4 + (double)c.y / 2 + (double)c.z / 4)) > tol || nabs((double)y.y - ((double)c.x / 2 - (double)c.z / 2)) > tol || nabs((double)y.z - (-(double)c.x / 4 + (double)c.y / 2 - (double)c.z / 4)) > tol) tfail("rgb2YCoCg" + sfx, "matrix", v3(c), "", v3(y));
+		if (nabs((double)yb.x - (double)c.x) > tol || nabs((double)yb.y - (double)c.y) > tol || nabs((double)yb.z - (double)c.z) > tol) tfail("YCoCg2rgb" + sfx, "does not invert rgb2YCoCg", v3(c), v3(c), v3(yb));
+		glm::vec<3, T> yr = glm::YCoCgR2rgb(glm::rgb2YCoCgR(c)); if (nabs((double)yr.x - (double)c.x) > tol || nabs((double)yr.y - (double)c.y) > tol || nabs((double)yr.z - (double)c.z) > tol) tfail("YCoCgR2rgb" + sfx, "does not invert rgb2YCoCgR (floating)", v3(c), v3(c), v3(yr));
 		// saturation / luminosity
-		T s = (T)r.real(0, 2), grey = (T)r.real(0, 1); glm::vec<3, T> gs = glm::saturation(s, glm::vec<3, T>(grey)); if (std::fabs((double)gs.x - (double)grey) > 1e-6 || std::fabs((double)gs.y - (double)grey) > 1e-6 || std::fabs((double)gs.z - (double)grey) > 1e-6) tfail("saturation" + sfx, "grey level changed", str((double)grey) + " s=" + str((double)s), str((double)grey), v3(gs));
-		glm::vec<3, T> s1 = glm::saturation((T)1, c); if (std::fabs((double)s1.x - (double)c.x) > 1e-6 || std::fabs((double)s1.y - (double)c.y) > 1e-6) tfail("saturation" + sfx, "s = 1 is not the identity", v3(c), v3(c), v3(s1));
-		double lum = 0.2126 * (double)c.x + 0.7152 * (double)c.y + 0.0722 * (double)c.z; glm::vec<3, T> s0 = glm::saturation((T)0, c); if (std::fabs((double)s0.x - lum) > 1e-6 || std::fabs((double)s0.z - lum) > 1e-6) tfail("saturation" + sfx, "s = 0 is not the documented luminance", v3(c), str(lum), v3(s0));
-		glm::vec<4, T> s4 = glm::saturation(s, glm::vec<4, T>(c, (T)0.37)); glm::vec<3, T> s3 = glm::saturation(s, c); if (s4.w != (T)0.37 || std::fabs((double)s4.x - (double)s3.x) > 1e-6) tfail("saturation" + sfx, "4-component overload", v3(c), "", "");
-		double lw = 0.33 * (double)c.x + 0.59 * (double)c.y + 0.11 * (double)c.z; if (std::fabs((double)glm::luminosity(c) - lw) > 1e-6) tfail("luminosity" + sfx, "documented weights", v3(c), str(lw), str((double)glm::luminosity(c)));
-		if (grey > (T)0.01 && std::fabs((double)glm::luminosity(glm::vec<3, T>(grey)) - (double)grey) > 1e-5) tfail("luminosity" + sfx, "grey level changed (the documented weights sum to 1.03)", str((double)grey), str((double)grey), str((double)glm::luminosity(glm::vec<3, T>(grey))));
+		T s = (T)r.real(0, 2), grey = (T)r.real(0, 1); glm::vec<3, T> gs = glm::saturation(s, glm::vec<3, T>(grey)); if (nabs((double)gs.x - (double)grey) > 1e-6 || nabs((double)gs.y - (double)grey) > 1e-6 || nabs((double)gs.z - (double)grey) > 1e-6) tfail("saturation" + sfx, "grey level changed", str((double)grey) + " s=" + str((double)s), str((double)grey), v3(gs));
+		glm::vec<3, T> s1 = glm::saturation((T)1, c); if (nabs((double)s1.x - (double)c.x) > 1e-6 || nabs((double)s1.y - (double)c.y) > 1e-6) tfail("saturation" + sfx, "s = 1 is not the identity", v3(c), v3(c), v3(s1));
+		double lum = 0.2126 * (double)c.x + 0.7152 * (double)c.y + 0.0722 * (double)c.z; glm::vec<3, T> s0 = glm::saturation((T)0, c); if (nabs((double)s0.x - lum) > 1e-6 || nabs((double)s0.z - lum) > 1e-6) tfail("saturation" + sfx, "s = 0 is not the documented luminance", v3(c), str(lum), v3(s0));
+		glm::vec<4, T> s4 = glm::saturation(s, glm::vec<4, T>(c, (T)0.37)); glm::vec<3, T> s3 = glm::saturation(s, c); if (s4.w != (T)0.37 || nabs((double)s4.x - (double)s3.x) > 1e-6) tfail("saturation" + sfx, "4-component overload", v3(c), "", "");
+		double lw = 0.33 * (double)c.x + 0.59 * (double)c.y + 0.11 * (double)c.z; if (nabs((double)glm::luminosity(c) - lw) > 1e-6) tfail("luminosity" + sfx, "documented weights", v3(c), str(lw), str((double)glm::luminosity(c)));
+		if (grey > (T)0.01 && nabs((double)glm::luminosity(glm::vec<3, T>(grey)) - (double)grey) > 1e-5) tfail("luminosity" + sfx, "grey level changed (the documented weights sum to 1.03)", str((double)grey), str((double)grey), str((double)glm::luminosity(glm::vec<3, T>(grey))));
 	}
 	count("HSV / YCoCg / saturation / luminosity" + sfx, n);
 }
